@@ -12,7 +12,8 @@ typedef struct fc_ctx {
 	sk_rng rng;          /* public argument stream */
 	sk_rng srng;         /* secret stream (differs between the two C15 runs) */
 	sk_rng tape;         /* caller's generator (gen_i), seeded from srng */
-	int tape_mode;       /* 0 uniform, 1 all zero, 2 all 0xFF */
+	int tape_mode;       /* 0 uniform, 1 all zero, 2 all 0xFF, 3 the first draw is c->craft (then uniform) */
+	const octet* craft; size_t craft_len; int craft_used;
 	void* a[32];         /* argument slots */
 	size_t n[32];
 	fc_span outs[8]; int nouts;   /* output buffers (exact size, sentinel-filled) */
